@@ -34,7 +34,7 @@ def main():
     from pydap.handlers.dap import unpack_dap2_data
     from pydap.handlers.lib import BaseHandler, IterData
     from pydap.lib import BytesReader
-    from pydap.model import BaseType, DatasetType, SequenceType
+    from pydap.model import BaseType, DatasetType, SequenceType, StructureType
     from pydap.parsers.dds import dds_to_dataset
 
     tmp = tempfile.mkdtemp(prefix="verif_c04_")
@@ -79,6 +79,9 @@ def main():
         for ti in range(n):
             ncols = rng.randint(1, 5)
             cols = ["c%d" % j for j in range(ncols)]
+            if ti == 1 or rng.random() < 0.25:
+                # column names that are not identifiers (legal DAP names: no quoting needed)
+                cols = ["t-max", "obs-id", "c2", "site_no-2", "c4"][:ncols]
             int_only = rng.random() < 0.4
             types = ["i" if int_only else rng.choice("ids") for _ in cols]
             nrows = rng.randint(0, 8)
@@ -293,14 +296,27 @@ def main():
         sqp["b"] = BaseType("b")
         sqp.data = np.array([(j, 10 * j) for j in range(nq)], dtype=[("a", "i4"), ("b", "i4")])
         dsp["q"] = sqp
+        # two structures with a member of the same name (and often the same extent): a hyperslab belongs to the variable at its
+        # PATH, so the same hyperslab text on the namesake is another hyperslab
+        n1 = rng.randint(1, 8)
+        n2 = n1 if rng.random() < 0.6 else rng.randint(1, 8)
+        for sn_, nn_ in (("s1", n1), ("s2", n2)):
+            stp = StructureType(sn_)
+            stp["t"] = BaseType("t", np.arange(nn_, dtype="i4"))
+            dsp[sn_] = stp
         appp = BaseHandler(dsp)
-        ext = {"x": nx, "y": ny, "q": nq}
+        ext = {"x": nx, "y": ny, "q": nq, "s1.t": n1, "s2.t": n2}
         mentions, texts = [], []
+        namesakes = pi % 4 == 0 or rng.random() < 0.3
         for _ in range(rng.randint(1, 4)):
-            v = rng.choice(["x", "x", "y", "q", "q"])
+            v = rng.choice(["s1.t", "s2.t", "s2.t", "s1.t", "x"] if namesakes else ["x", "x", "y", "q", "q"])
             prev = [m for m in mentions if m[0] == v and m[1] is not None]
+            other = [m for m in mentions if m[0] != v and m[0] != "q" and m[1] is not None]
             if rng.random() < 0.3:
                 sl = None
+            elif v != "q" and not prev and other and rng.random() < 0.7:
+                # the very hyperslab another variable was given
+                sl = rng.choice(other)[1]
             elif prev and (rng.random() < 0.5 or (v != "q" and any(m[1][1] != 1 for m in prev))):
                 # the same hyperslab once more.  (A DIFFERENT hyperslab after a strided one is not generated for arrays: the
                 # composition is numpy.lib.Arrayterator's, which adds the second start to the first without scaling it by the
@@ -326,7 +342,9 @@ def main():
                 dsr = open_dods_url("http://localhost:8001/d.dods?" + ce, application=appp)
                 obs = {}
                 for v in dsr.keys():
-                    if v == "q":
+                    if v in ("s1", "s2"):
+                        obs[v + ".t"] = [int(e) for e in np.asarray(dsr[v]["t"].data).reshape(-1)]
+                    elif v == "q":
                         col = list(dsr["q"].keys())[0]
                         obs["q"] = [int(rec[0]) // (10 if col == "b" else 1) for rec in dsr["q"][col,].iterdata()]
                     else:
